@@ -15,9 +15,9 @@ import (
 )
 
 func init() {
-	register(&Rule{ID: "R22", Title: "guarded-by: every access to a lock-guarded field holds its lock (writes exclusively)", Min: 40, Run: ruleR22})
+	register(&Rule{ID: "R22", Title: "guarded-by: every access to a lock-guarded field holds its lock (writes exclusively)", Min: 25, Run: ruleR22})
 	register(&Rule{ID: "R23", Title: "atomic-consistent: a variable accessed through sync/atomic is accessed only that way", Min: 3, Run: ruleR23})
-	register(&Rule{ID: "R24", Title: "owner-confinement: mutable node state is touched only by the node's own goroutine", Min: 10, Run: ruleR24})
+	register(&Rule{ID: "R24", Title: "owner-confinement: mutable node state is touched only by the node's own goroutine", Min: 7, Run: ruleR24})
 	register(&Rule{ID: "R25", Title: "closure-shared: a local written by a closure that escapes to other goroutines is accessed atomically or under a lock", Min: 1, Run: ruleR25})
 }
 
@@ -787,6 +787,24 @@ func ruleR22tracker(c *Ctx) {
 						// Unlock directly followed by return after the if
 						if op == "Unlock" && !okShape {
 							okShape = followedByReturn(p, ifs)
+						}
+						// helper shape: the function consists of this `if flag { Unlock }` only, flag is its
+						// parameter, and every call site is followed by a return
+						if op == "Unlock" && !okShape && f.Decl != nil && len(f.Body.List) == 1 && f.Body.List[0] == ast.Stmt(ifs) {
+							sites, good := 0, 0
+							for _, h := range p.Funcs {
+								hin := info(h)
+								inspectNoLit(h.Body, func(z ast.Node) bool {
+									if hc, ok := z.(*ast.CallExpr); ok && callee(hin, hc) == f.Obj {
+										sites++
+										if es, ok := p.Parent(hc).(*ast.ExprStmt); ok && followedByReturn(p, es) {
+											good++
+										}
+									}
+									return true
+								})
+							}
+							okShape = sites > 0 && sites == good
 						}
 					}
 				}
